@@ -5,7 +5,7 @@ import re
 from ..facts import (AnalysisBroken, walk, children, strip_casts, expr_str, is_null_const, const_val, ASSIGN_OPS, CMP_OPS,
                      callee_name, indirect_field)
 from ..dataflow import solve, node_effects, access
-from .common import (all_functions, assignments, is_ref, is_mem, cmp_parts, region_without_edges, guarded_by,
+from .common import (all_functions, assignments, is_ref, is_mem, cmp_parts, region_without_edges, guarded_by, field_cache, expand_cached,
                      node_containing, find_function)
 
 KINDS = {'cJSON_False': 1, 'cJSON_True': 2, 'cJSON_NULL': 4, 'cJSON_Number': 8, 'cJSON_String': 16, 'cJSON_Array': 32,
@@ -26,8 +26,9 @@ def tab3(units, R):
             if x.get('k') != 'mem' or x['f'] != 'type':
                 continue
             bt = u.ty(strip_casts(x['b'])['ty'])['s']
-            if 'cJSON' not in bt:
-                continue
+            import re as _re
+            if not _re.search(r'(^|[^A-Za-z0-9_/.])cJSON\b(?!\.)', _re.sub(r'\(unnamed [^)]*\)', '', bt)):
+                continue          # ->type of some other record (a rule table), not of a node
             p = par.get(x['id'])
             child = x
             while p is not None and p.get('k') == 'cast':
@@ -78,6 +79,33 @@ def tab3(units, R):
         s, labels = best
         cond = strip_casts(s['c'])
         masked = cond.get('k') == 'bin' and cond['op'] == '&' and (const_val(cond['r']) == 0xFF or const_val(cond['l']) == 0xFF)
+        km = _kind_helper_map(u, fn, cond) if not masked else None
+        if km is not None:
+            # the switch runs over a kind that a static helper computes from the type word; the helper was evaluated from its body
+            kmap, v0 = km
+            covered = all(kmap.get(t) is not None and kmap[t] in labels for t in need)
+            R.ob('TAB3', fn, s, '%s: switch %s on the masked kind' % (fname, label), covered,
+                 'kinds %s of the eight type constants (flags ignored by the helper) all have an arm' % sorted(set(kmap.values()))
+                 if covered else 'helper results %s, arms %s' % (kmap, sorted(labels)), key='switch:' + fname)
+            refused = False
+            fcfg = fn.cfg()
+            for b in fcfg.nodes:
+                if b.kind != 'branch':
+                    continue
+                p_ = cmp_parts(b.expr)
+                if p_ is not None and strip_casts(p_[0]).get('d') == cond.get('d') and p_[1] in ('==', '!=') and p_[2] == v0:
+                    for (y, lab) in fcfg.succ[b.id]:
+                        if lab is not None and ((lab[0] == 'T') == (p_[1] == '==')):
+                            rets = [r for r in fcfg.returns() if r.id in (fcfg.reachable(y) | {y})]
+                            if rets and all(r.expr is not None and const_val(r.expr) == 0 for r in rets):
+                                refused = True
+            for cs in walk(s['body']):
+                if cs.get('k') in ('case', 'default') and (cs.get('k') == 'default' or const_val(cs['v']) == v0):
+                    if any(r.get('k') == 'return' and 'e' in r and const_val(r['e']) == 0 for r in walk(cs)):
+                        refused = refused or cs.get('k') == 'default' or v0 not in {kmap[t] for t in need}
+            R.ob('TAB3', fn, s, '%s: unknown kinds are refused by the default arm' % fname, refused,
+                 'the helper gives %s for anything else, which is refused' % v0, key='switchdefault:' + fname)
+            continue
         R.ob('TAB3', fn, s, '%s: switch %s on the masked kind' % (fname, label), masked and need <= labels,
              'cases %s, mask %s' % (sorted(labels), masked), key='switch:' + fname)
         dflt = [d for d in walk(s['body']) if d.get('k') == 'default']
@@ -87,6 +115,35 @@ def tab3(units, R):
                 if r.get('k') == 'return' and 'e' in r and const_val(r['e']) == 0:
                     dret = True
         R.ob('TAB3', fn, s, '%s: unknown kinds are refused by the default arm' % fname, dret, '', key='switchdefault:' + fname)
+
+
+def _kind_helper_map(u, fn, cond):
+    """({type constant: value}, value for an invalid type) when cond is a local assigned once from h(X->type) for a static one-argument
+    helper h whose value does not depend on the flag bits; h is evaluated from its body"""
+    if cond.get('k') != 'ref' or cond.get('dk') != 'local':
+        return None
+    defs = [a['r'] for a in assignments(fn) if is_ref(a['l']) and strip_casts(a['l'])['d'] == cond['d']]
+    defs += [d['init'] for d in fn.locals() if d['d'] == cond['d'] and 'init' in d and strip_casts(d['init']).get('k') == 'call']
+    calls = [strip_casts(x) for x in defs if strip_casts(x).get('k') == 'call']
+    if len(calls) != 1 or callee_name(calls[0]) not in u.functions or not u.functions[callee_name(calls[0])].static:
+        return None
+    h = u.functions[callee_name(calls[0])]
+    if len(h.params) != 1 or not calls[0]['args'] or not any(x.get('k') == 'mem' and x.get('f') == 'type' for x in walk(calls[0]['args'][0])):
+        return None
+    from .shape import Interp, Heap, ShapeViolation
+    out = {}
+    try:
+        for t in (1, 2, 4, 8, 16, 32, 64, 128):
+            kv = Interp({'unit': u}, Heap()).run(u, h, [t])
+            if not isinstance(kv, int) or any(Interp({'unit': u}, Heap()).run(u, h, [t | fl]) != kv for fl in (256, 512, 768)):
+                return None
+            out[t] = kv
+        v0 = Interp({'unit': u}, Heap()).run(u, h, [0])
+        if any(Interp({'unit': u}, Heap()).run(u, h, [bad]) != v0 for bad in (3, 0x60, 0xFF, 256)):
+            return None
+    except (AnalysisBroken, ShapeViolation):
+        return None
+    return out, v0
 
 
 # ---- TAB14 ---------------------------------------------------------------------------------------------------
@@ -300,8 +357,10 @@ def tab14(units, R):
         work = [fcfg.entry.id]
         out = {}
 
+        tc_ = field_cache(u, F, 'type')
+
         def mask_of(e):
-            e = strip_casts(e)
+            e = strip_casts(expand_cached(e, tc_))
             if e.get('k') == 'mem' and e['f'] == 'type' and is_ref(e['b']) and strip_casts(e['b']).get('d') == sd:
                 return FULL
             if e.get('k') == 'bin' and e['op'] == '&':
@@ -384,8 +443,12 @@ def tab14(units, R):
         R.ob('TAB14', fn, x, 'children are visited only when recurse is set', ok, '', key='recurse-guard')
     # the copy may hold a borrowed (constant) key only while its type already says so: whoever releases the half-built copy
     # on a failure path looks at copy->type to decide whether the key is its to free
+    tc_all = {}
+    for (F_, _c, _s) in contexts:
+        tc_all.update(field_cache(u, F_, 'type'))
+
     def keeps_const_bit(r):
-        r = strip_casts(r)
+        r = strip_casts(expand_cached(r, tc_all))
         if r.get('k') == 'mem' and r['f'] == 'type' and derives_from_source(r):
             return True
         if r.get('k') == 'bin' and r['op'] == '&':
@@ -524,6 +587,28 @@ def c12_structure(units, R):
         for (y, l) in cfg.succ[sw.id]:
             if l and l[0] == 'case':
                 arms.setdefault(l[2], []).append((sw, y))
+
+    # a dispatch on a kind that a static helper computes from the type word (kind = get_compare_kind(a->type); switch (kind)):
+    # the helper is evaluated from its body for each of the eight type constants, and the arm of a type is the arm of its kind
+    kind_of = {}
+    for sw in sws:
+        c0 = strip_casts(sw.expr) if sw.expr is not None else {}
+        if c0.get('k') != 'ref' or c0.get('dk') != 'local':
+            continue
+        defs = [a['r'] for a in assignments(fn) if is_ref(a['l']) and strip_casts(a['l'])['d'] == c0['d']]
+        defs += [d['init'] for d in fn.locals() if d['d'] == c0['d'] and 'init' in d and strip_casts(d['init']).get('k') == 'call']
+        calls = [strip_casts(x) for x in defs if strip_casts(x).get('k') == 'call']
+        if len(calls) != 1 or callee_name(calls[0]) not in u.functions or not u.functions[callee_name(calls[0])].static:
+            continue
+        h = u.functions[callee_name(calls[0])]
+        a0 = [x for x in walk(calls[0]['args'][0])] if calls[0]['args'] else []
+        if len(h.params) != 1 or not any(x.get('k') == 'mem' and x.get('f') == 'type' for x in a0):
+            continue
+        km = _kind_helper_map(u, fn, c0)
+        if km is not None:
+            kind_of = km[0]
+    if kind_of:
+        arms = {t: arms[kv] for t, kv in kind_of.items() if kv in arms}
 
     def arm_region(val):
         """nodes reachable from the case edge of the last switch having that label, not crossing other case labels"""
